@@ -44,7 +44,7 @@ CHECKS = {
         "technique": "bounded exhaustive enumeration of comments and of all 32 mode vectors on the real code with relational oracles",
     },
     "C17": {
-        "text": "Every function name the factory knows x arity 0..3 x 5 qualifier sets, every component kind, boolean nests to depth 3 (thorough 4) and "
+        "text": "Every function name the factory knows x arity 0..3 x 7 qualifier sets (up to four qualifiers), every component kind, boolean nests to depth 3 (thorough 4) and "
         "1..3-component programs; every layout with <=1/2 deviating gaps (no space where tokens cannot merge, newline, tab, inner "
         "comment between components): no _ambig node in the raw Lark tree, structural dump of the component tree equals the generated "
         "AST for every layout, outer comment changes nothing, run results identical across layouts.",
@@ -124,7 +124,7 @@ CHECKS = {
     },
     "C11": {
         "text": "Explicit-state breadth-first search over operation histories {write source, add_named_file, remove, new instance} (13 operations, "
-        "2 names x 2 source files x 3 contents) to depth 5 (thorough 8) on the real FileManager, models/refstore.Files stepped in "
+        "2 names x 2 source files x 3 contents) to depth 5 (thorough 7) on the real FileManager, models/refstore.Files stepped in "
         "lock-step; all store invariants of the statement are evaluated after every operation and from a fresh instance; "
         "canonical states (model + masked tree) de-duplicated.",
         "design": "3 / C11",
